@@ -177,6 +177,26 @@ type World struct {
 	FromResolver bool // a name was provided by a resolver
 	LeftUnset    bool // an operator's left side was unset or empty
 	Shadowed     bool // a name found in one layer also exists in a later-consulted layer
+	Absorbed     bool           // a re-entry was absorbed: a resolver knew the active name, or an operator swallowed the failure
+	Uses         map[string]int // how often each name was dereferenced during the last evaluation
+}
+
+func (w *World) use(name string) {
+	if w.Uses == nil {
+		w.Uses = map[string]int{}
+	}
+	w.Uses[name]++
+}
+
+// Repeated reports whether some name was dereferenced more than once during
+// the last evaluation (repeated use in one string, or a diamond).
+func (w *World) Repeated() bool {
+	for _, n := range w.Uses {
+		if n > 1 {
+			return true
+		}
+	}
+	return false
 }
 
 var (
@@ -194,6 +214,8 @@ func (e *ErrMsg) Error() string { return "model: error operator: " + e.Msg }
 func (w *World) Reset() {
 	w.stack = nil
 	w.SawCycle, w.FromEnv, w.FromResolver, w.LeftUnset, w.Shadowed = false, false, false, false, false
+	w.Uses = nil
+	w.Absorbed = false
 }
 
 func lookupIn(tree *Node, name string) (*Node, bool) {
@@ -322,8 +344,10 @@ func ParseText(text string) (interface{}, error) {
 
 // refEval is the value of ${name} inside a larger string.
 func (w *World) refEval(name string) (string, error) {
+	w.use(name)
 	if w.active(name) {
 		if s, ok := w.resolver(name); ok {
+			w.Absorbed = true
 			if s == "" {
 				return "", ErrMissing
 			}
@@ -391,8 +415,10 @@ func (w *World) evalToString(n *Node) (string, error) {
 				}
 				return "", nil, false
 			}
+			w.use(name)
 			if w.active(name) {
 				if str, err, ok := fromResolver(); ok {
+					w.Absorbed = true
 					return str, err
 				}
 				return "", ErrCyclic
@@ -449,6 +475,14 @@ func (w *World) evalParts(ps []Part) (string, error) {
 	return b.String(), nil
 }
 
+// swallow notes that an operator replaced a failure; if a reference had been
+// re-entered before, that re-entry may be what it absorbed.
+func (w *World) swallow() {
+	if w.SawCycle {
+		w.Absorbed = true
+	}
+}
+
 func (w *World) evalVar(p Part) (string, error) {
 	name, nerr := w.evalParts(p.Name)
 	switch p.Op {
@@ -460,21 +494,25 @@ func (w *World) evalVar(p Part) (string, error) {
 	case ":":
 		if nerr != nil || name == "" {
 			w.LeftUnset = true
+			w.swallow()
 			return w.evalParts(p.Right)
 		}
 		s, err := w.refEval(name)
 		if err != nil || s == "" {
 			w.LeftUnset = true
+			w.swallow()
 			return w.evalParts(p.Right)
 		}
 		return s, nil
 	case ":+":
 		if nerr != nil || name == "" {
 			w.LeftUnset = true
+			w.swallow()
 			return "", nil
 		}
 		if !w.refFound(name) {
 			w.LeftUnset = true
+			w.swallow()
 			return "", nil
 		}
 		return w.evalParts(p.Right)
@@ -485,6 +523,7 @@ func (w *World) evalVar(p Part) (string, error) {
 				return s, nil
 			}
 		}
+		w.swallow()
 		w.LeftUnset = true
 		msg, err := w.evalParts(p.Right)
 		if err != nil {
@@ -561,8 +600,10 @@ func (w *World) Eval(n *Node) (interface{}, error) {
 				}
 				return nil, nil, false
 			}
+			w.use(name)
 			if w.active(name) {
 				if pv, err, ok := fromResolver(); ok {
+					w.Absorbed = true
 					return pv, err
 				}
 				return nil, ErrCyclic
